@@ -107,7 +107,7 @@ Error BaseBuilder::new_embed_data_node(Out<EmbedDataNode*> out, TypeId type_id, 
 
   EmbedDataNode* node = nullptr;
   ASMJIT_PROPAGATE(
-    new_node_with_size_t<EmbedDataNode>(Out(node), Arena::aligned_size(node_size), type_id, uint8_t(type_size), item_count, repeat_count)
+    new_node_with_size_t<EmbedDataNode>(Out(node), Arena::aligned_size(node_size), final_type_id, uint8_t(type_size), item_count, repeat_count)
   );
 
   if (data) {
